@@ -75,6 +75,11 @@ let () =
     let res = write_stl_items_c now md l in
     let flat = List.filter_map (function Some i -> Some (item_flat i) | None -> None) l in
     if write_faithful md flat then pres pstr res else ns_class res);
+  (* pinned cases outside the faithful domain whose characters the normaliser leaves alone (harness/stl_outside.go) *)
+  register "stlencraw" (fun r -> let t = rstr r in pres pstr (encode_text_stl_c t));
+  register "stlwriteraw" (fun r ->
+    let now = rstr r in let md = ropt_with rwmeta r in let items = rlist rwitem r in pres pstr (write_stl_c now md items));
+  register "stlreadraw" (fun r -> let ign = rbool r in let d = rstr r in pres prdoc (read_stl_c ign d));
   register "stlenc" (fun r ->
     let t = rstr r in
     if text_faithful t then pres pstr (encode_text_stl_c t) else Buffer.add_string b "NS 0 ");
